@@ -129,7 +129,7 @@ func runFront(c *fw.Ctx, d frontDesc) {
 	frontEnvMu.Lock()
 	defer frontEnvMu.Unlock()
 	initDone = false
-	for _, k := range []string{"AWS_LAMBDA_FUNCTION_TIMEOUT", "AWS_LAMBDA_FUNCTION_NAME", "AWS_LAMBDA_FUNCTION_HANDLER", "_HANDLER", "WEIRD", "EMPTYVAL", "AWS_ACCESS_KEY_ID"} {
+	for _, k := range []string{"AWS_LAMBDA_FUNCTION_TIMEOUT", "AWS_LAMBDA_FUNCTION_NAME", "AWS_LAMBDA_FUNCTION_HANDLER", "_HANDLER", "WEIRD", "EMPTYVAL", "AWS_ACCESS_KEY_ID", "AWS_LAMBDA_LOG_GROUP_NAME", "AWS_LAMBDA_LOG_STREAM_NAME"} {
 		os.Unsetenv(k)
 	}
 	P := d.Prop
@@ -139,7 +139,7 @@ func runFront(c *fw.Ctx, d frontDesc) {
 	}
 	os.Setenv("AWS_LAMBDA_FUNCTION_TIMEOUT", timeoutS)
 	exts := []string{}
-	if d.Arg == "extension-never-registers" || d.Arg == "ext-crash" {
+	if d.Arg == "extension-never-registers" || d.Arg == "ext-crash" || d.Kind == "environ" {
 		exts = []string{"ext0"}
 	}
 	w, err := sc.NewWorld(vh.Config{Extensions: exts})
@@ -372,6 +372,8 @@ func runFront(c *fw.Ctx, d frontDesc) {
 		os.Setenv("AWS_LAMBDA_FUNCTION_HANDLER", "second.handler")
 		os.Setenv("AWS_ACCESS_KEY_ID", "AKIA-SECOND")
 		os.Setenv("AWS_LAMBDA_FUNCTION_NAME", "second_function")
+		os.Setenv("AWS_LAMBDA_LOG_GROUP_NAME", "/container/defined/group")
+		os.Setenv("AWS_LAMBDA_LOG_STREAM_NAME", "container/defined/stream")
 		resp2 := frontInvoke(w, []byte("env2"), nil)
 		c.Check(resp2.Code == 200, "front_env_invoke_ok", P+"/front/env-invoke-2", "invocation after re-initialisation failed", resp2.Code)
 		var p2 *vh.Proc
@@ -382,6 +384,17 @@ func runFront(c *fw.Ctx, d frontDesc) {
 		}
 		if c.Check(p2 != nil, "front_env_runtime", P+"/front/env-runtime-2", "no second runtime", nil) {
 			ok := p2.Env["WEIRD"] == "second=init" && p2.Env["_HANDLER"] == "second.handler" && p2.Env["AWS_ACCESS_KEY_ID"] == "AKIA-SECOND" && p2.Env["AWS_LAMBDA_FUNCTION_NAME"] == "second_function"
+			// container-defined log names reach the runtime AND the extensions (the defaults only fill gaps)
+			for _, q := range w.E.Sup.Procs() {
+				if q.Role != "ext" && q != p2 {
+					continue
+				}
+				if q.Role == "ext" && q.Gen < p2.Gen {
+					continue
+				}
+				okLog := q.Env["AWS_LAMBDA_LOG_GROUP_NAME"] == "/container/defined/group" && q.Env["AWS_LAMBDA_LOG_STREAM_NAME"] == "container/defined/stream"
+				c.Check(okLog, "front_env_container_values_win", P+"/front/env-default-overrides-container/"+q.Role, "a container-defined log group / stream name was replaced by the built-in default for the "+q.Role+" process", fmt.Sprintf("group=%q stream=%q", q.Env["AWS_LAMBDA_LOG_GROUP_NAME"], q.Env["AWS_LAMBDA_LOG_STREAM_NAME"]))
+			}
 			c.Check(ok, "front_env_per_init", P+"/front/env-stale-after-reinit", "the runtime of a second initialisation did not get that initialisation's parameters", fmt.Sprintf("WEIRD=%q _HANDLER=%q AWS_ACCESS_KEY_ID=%q AWS_LAMBDA_FUNCTION_NAME=%q", p2.Env["WEIRD"], p2.Env["_HANDLER"], p2.Env["AWS_ACCESS_KEY_ID"], p2.Env["AWS_LAMBDA_FUNCTION_NAME"]))
 		}
 	}
